@@ -155,7 +155,7 @@ def altitude(msg: str) -> None | int:
     if tc < 19:
         altcode = altbin[0:6] + "0" + altbin[6:]
         alt = common.altitude(altcode)
-        if alt != -999999:
+        if alt not in (-999999, -1):
             return alt
         else:
             # return None if altitude is invalid
